@@ -64,6 +64,10 @@ class Checker:
         claim = traffic.iso_name(123456, 1855, 1, 2, 130, 25, 3, 4, 1)
         self.mapped.decode_tcp(traffic.render({"pgn": 60928, "src": 1, "dest": 255, "data": claim.to_bytes(8, "little")}))
         self.enc = NMEA2000Encoder()
+        # decoders with unit preferences: what they return (converted values, new unit labels) must serialise and parse like anything else
+        from nmea2000.consts import PhysicalQuantities as PQ
+        self.units = [NMEA2000Decoder(preferred_units={getattr(PQ, q): u for q, u in prefs.items()})
+                      for prefs in ({"TEMPERATURE": "C", "ANGLE": "deg", "SPEED": "kts", "PRESSURE": "bar"}, {"TEMPERATURE": "F", "PRESSURE": "psi", "ANGLE": "deg"})]
 
     def deliver(self, dec, d, payload, nbytes, via):
         """The entry points and argument container types the library's own clients use."""
@@ -85,7 +89,7 @@ class Checker:
 
     def check(self, d, payload, nbytes, with_identity, via="basic"):
         ctx = self.ctx
-        dec = self.mapped if with_identity else self.plain
+        dec = self.units[int(with_identity) - 2] if int(with_identity) >= 2 else self.mapped if with_identity else self.plain
         case = {"definition": d.key, "payload_hex": payload.to_bytes(nbytes, "little").hex(), "with_identity": with_identity, "via": via}
         try:
             m = self.deliver(dec, d, payload, nbytes, via)
@@ -178,10 +182,10 @@ def _work(ctx: Ctx, item):
                 res += [(b if b.endswith(via) else b + "|" + via, w, c) for b, w, c in r2]
             return res
 
-        ctx.hyp(one, gen.payloads(d, mode="any", extra_bytes=d.fast), st.booleans(), max_examples=n, name="any")
-        ctx.hyp(one, gen.payloads(d, mode="accepted", extra_bytes=d.fast), st.booleans(), max_examples=n, name="accepted")
+        ctx.hyp(one, gen.payloads(d, mode="any", extra_bytes=d.fast), st.integers(0, 3), max_examples=n, name="any")
+        ctx.hyp(one, gen.payloads(d, mode="accepted", extra_bytes=d.fast), st.integers(0, 3), max_examples=n, name="accepted")
         bp, bn, _ = gen.benign_payload(d)
-        for ident in (False, True):
+        for ident in (0, 1, 2, 3):
             for b, w, c in one((bp, bn, []), ident):
                 ctx.report(b, w, c)
         if d.index % 60 == 0:
@@ -299,6 +303,39 @@ def _dump(ctx: Ctx, item):
         shutil.rmtree(tmpdir, ignore_errors=True)
 
 
+def _close_while_disconnected(kind, msgs, path, entries):
+    """The gateway goes away (and stays away) after the messages were delivered; the application closes the client while it is
+    DISCONNECTED: the dump holds every delivered message that matches. -> text of the discrepancy or ''"""
+    import asyncio
+    from .. import aio
+    if os.path.exists(path):
+        os.remove(path)
+    s = aio.Session(kind, client_kwargs={"dump_to_file": path, "dump_pgns": list(entries)}, connect_plan=[("accept",), ("refuse",)])
+
+    async def main(s):
+        c = s.make_client()
+        await c.connect()
+        await asyncio.sleep(0.2)
+        for ch in aio.render_messages(kind, msgs):
+            s.gw.link.feed(ch)
+            await asyncio.sleep(0.01)
+        await asyncio.sleep(1.0)
+        s.gw.link.eof()
+        await asyncio.sleep(3.0)
+        s.state_at_close = c.state.name
+        await c.close()
+    if s.run(main) != "ok":
+        return f"session ended with {s.outcome}"
+    got = [m for _, m in s.received]
+    want = [strict_loads(m.to_json()) for m in got if not entries or m.PGN in entries or m.id in entries]
+    try:
+        with open(path) as f:
+            have = [strict_loads(l) for l in f.read().split("\n") if l]
+    except Exception as e:
+        return f"dump unreadable: {e}"
+    return "" if have == want and got else f"dump has {len(have)} lines, {len(want)} delivered messages match (client state at close(): {s.state_at_close})"
+
+
 def _clients(ctx: Ctx, item=None):
     """Dumping switched on through each gateway client, link dropped and re-established in the middle: after close() the dump file holds
     the JSON of every delivered message that matches the dump filter, in order."""
@@ -309,8 +346,16 @@ def _clients(ctx: Ctx, item=None):
     try:
         for kind in aio.CLIENT_KINDS:
             for label, entries in (("all", []), ("[127250, 'windData']", [127250, "windData"])):
-                for rc in ((), (6,)):
+                for rc in ((), (6,), "closed-while-disconnected"):
                     path = os.path.join(tmpdir, f"{kind}.jsonl")
+                    if rc == "closed-while-disconnected":
+                        res_ = _close_while_disconnected(kind, msgs, path, entries)
+                        ctx.count()
+                        ctx.nontrivial_extra += 1
+                        if res_:
+                            ctx.report(f"C15|client-{kind}|dump|closed-while-disconnected", f"{kind} client with dump filter {label}, gateway gone, close(): {res_}",
+                                       {"clientopts": True, "kind": kind, "options": label, "reconnect": "closed-while-disconnected"})
+                        continue
                     if os.path.exists(path):
                         os.remove(path)
                     chunks = aio.render_messages(kind, msgs)
